@@ -49,6 +49,9 @@ def shards(tier, seed):
     nr = 4 if tier == "quick" else 12
     for i in range(nr):
         out.append({"kind": "rotate-rational", "index": i})
+    # storage-type adjunct (concrete, no symbolic content possible): components given as integer-typed
+    # arrays must behave like the same numbers given as floats
+    out.append({"kind": "dtype"})
     return out
 
 
@@ -307,8 +310,43 @@ def h_rotate_rational(ctx, index):
     ctx.sample({"rotate-rational": [[str(x) for x in r] for r in Rf]})
 
 
+def _dtype_problems():
+    import porepy as pp
+
+    problems = []
+    ints = {"xx": np.array([1, 2, 3, 4]), "yy": np.array([2, 3, 4, 5]), "zz": np.array([5, 7, 9, 11]),
+            "xy": np.array([0, 1, 0, 1]), "xz": np.array([0, 0, 1, 0]), "yz": np.array([1, 0, 0, 1])}
+    R = np.array([[0.6, -0.8, 0.0], [0.8, 0.6, 0.0], [0.0, 0.0, 1.0]]) @ np.array([[1.0, 0, 0], [0, 0.6, -0.8], [0, 0.8, 0.6]])
+    for typ in (np.int64, np.int32):
+        ki = pp.SecondOrderTensor(ints["xx"].astype(typ), kyy=ints["yy"].astype(typ), kzz=ints["zz"].astype(typ),
+                                  kxy=ints["xy"].astype(typ), kxz=ints["xz"].astype(typ), kyz=ints["yz"].astype(typ))
+        kf = pp.SecondOrderTensor(*[ints[n].astype(float) for n in ("xx",)],
+                                  **{f"k{n}": ints[n].astype(float) for n in ("yy", "zz", "xy", "xz", "yz")})
+        if not np.allclose(ki.values, kf.values):
+            problems.append(f"{typ.__name__}: constructed values differ from the float construction")
+        ki.rotate(R)
+        kf.rotate(R)
+        if not np.allclose(ki.values, kf.values, atol=1e-12):
+            problems.append(f"{typ.__name__}: rotated values differ from the float construction by "
+                            f"{np.abs(ki.values - kf.values).max()}")
+        sub_i, sub_f = ki.copy(), kf.copy()
+        if not np.allclose(sub_i.values, sub_f.values, atol=1e-12):
+            problems.append(f"{typ.__name__}: copy differs")
+    return problems
+
+
+def h_dtype(ctx):
+    case = lambda conc: {"kind": "dtype"}  # noqa: E731
+    ctx.check("integer-typed-components-behave-like-floats", not _dtype_problems(), case)
+    ctx.reach("end")
+    ctx.sample({"kind": "dtype"})
+
+
 def run_shard(ex, shard):
     k = shard["kind"]
+    if k == "dtype":
+        ex.run(h_dtype, label=k)
+        return
     if k == "second-construct":
         ex.run(h_second_construct, label=k)
     elif k == "second-reject":
@@ -355,6 +393,9 @@ def replay_case(case):
 
     kind = case["kind"]
     tol = 1e-9
+    if kind == "dtype":
+        probs = _dtype_problems()
+        return (True, f"SecondOrderTensor from integer arrays: {probs}") if probs else (False, "ok")
     if kind in ("construct", "copy", "rotate", "restrict"):
         K, a = _real_second(case["comp"])
         nc = a["xx"].size
